@@ -258,7 +258,8 @@ def run_case(case):
             for a in widths:
                 if 12 * a > n:       # the wavelet (support ~ +-5 widths) and its shifted copy must fit in the window
                     continue
-                w = ricker(n, a)
+                # any amplitude: volts-scale spikes (tens of microvolts) as well as unit-scale wavelets
+                w = ricker(n, a) * float(10 ** rng.uniform(-6, 1))
                 if case["k"] % 2:
                     w = -w
                 for s in np.r_[np.linspace(-4.9, 4.9, 15), rng.uniform(-5, 5, 6)]:
@@ -313,6 +314,8 @@ def run_case(case):
             a = float(-10 ** rng.uniform(-3, 1))
             top = float(rng.uniform(-5, 5))
             t = np.arange(n)
+            sc = float(10 ** rng.uniform(-10, 3))        # the vertex position does not depend on the units of the samples
+            a, top = a * sc, top * sc
             y = a * (t - c) ** 2 + top
             try:
                 ip, mx = parabolic_max(y)
